@@ -182,7 +182,16 @@ func (root *Root) resolve(
 	switch tt := t.(type) {
 	case *List:
 		result, ea = root.resolveList(obj, vars, field, tt, depth-1)
-	case *Object, *Schema, *Interface, *uuSchema:
+	case *Object, *Schema, *uuSchema:
+		result, ea = root.resolveFieldSels(obj, vars, field, t, depth-1)
+	case *Interface:
+		// The selections are resolved on the type of the object when it can
+		// be determined, the way it is for a union member, so that
+		// __typename is the object type and the fragments on it apply. The
+		// interface itself is used when the object type is not known.
+		if ot, _ := root.getReflectType(reflect.TypeOf(obj)).(*Object); ot != nil && ot.implements(tt) {
+			t = ot
+		}
 		result, ea = root.resolveFieldSels(obj, vars, field, t, depth-1)
 	case *NonNull:
 		result, ea = root.resolve(obj, vars, field, tt.Base, depth)
@@ -960,10 +969,33 @@ func (root *Root) resolveInline(
 	result map[string]interface{},
 	depth int) (ea []error) {
 
-	if sel.Condition == nil || sel.Condition == t {
+	if fragmentApplies(sel.Condition, t) {
 		ea = root.resolveSels(obj, vars, sel.Sels, t, result, depth)
 	}
 	return
+}
+
+// fragmentApplies reports whether a fragment with the type condition applies
+// to an object of type t. It does when there is no condition, the condition
+// is the type, an interface the type implements or a union the type is a
+// member of.
+func fragmentApplies(cond, t Type) bool {
+	if cond == nil || cond == t {
+		return true
+	}
+	if ot, _ := t.(*Object); ot != nil {
+		switch tc := cond.(type) {
+		case *Interface:
+			return ot.implements(tc)
+		case *Union:
+			for _, m := range tc.Members {
+				if m == t {
+					return true
+				}
+			}
+		}
+	}
+	return false
 }
 
 func (root *Root) resolveFragRef(
@@ -974,7 +1006,7 @@ func (root *Root) resolveFragRef(
 	result map[string]interface{},
 	depth int) (ea []error) {
 
-	if sel.Fragment.Condition == nil || sel.Fragment.Condition == t {
+	if fragmentApplies(sel.Fragment.Condition, t) {
 		ea = root.resolveSels(obj, vars, sel.Fragment.Sels, t, result, depth)
 		if 0 < len(ea) {
 			Errors(ea).in(fmt.Sprintf("fragment at %d:%d", sel.Line(), sel.Column()))
